@@ -37,7 +37,9 @@ def gen_labels(rng, max_len):
     n = rng.randint(3, max_len)
     while len(labels) < n:
         x = rng.random()
-        if x < 0.3:
+        if x < 0.06:
+            labels.append("connectbad"); nconn += 1
+        elif x < 0.3:
             labels.append("connect"); nconn += 1
         elif x < 0.55 and nconn:
             labels.append(f"send {rng.randrange(nconn)}")
@@ -101,8 +103,10 @@ def job_random(seed, count, max_len, cli_every):
     for i in range(count):
         kind = rng.choice(["unix", "tcp"])
         labels = gen_labels(rng, max_len)
-        nconn = sum(1 for l in labels if l == "connect")
-        ck = ["cli" if (cli_every and (i % cli_every == 0) and j == 0) else "raw" for j in range(nconn)]
+        conns = [l for l in labels if l in ("connect", "connectbad")]
+        first = next((j for j, l in enumerate(conns) if l == "connect"), None)
+        ck = ["cli" if (cli_every and (i % cli_every == 0) and j == first) else "raw"
+              for j in range(len(conns))]
         res.extend(job_scn(kind, labels, ck, f"rand-{seed}-{i}"))
     return res
 
@@ -116,6 +120,9 @@ CORPUS = [
     # the client left *before* the stop (D9's second half)
     ("unix", ["start", "connect", "send 0", "send 0", "leave 0", "stop", "connect"], ["raw"]),
     ("unix", ["start", "stop", "connect"], []),
+    # a client that never completes the handshake harms nobody
+    ("unix", ["start", "connectbad", "connect", "connectbad", "send 1", "stop", "leave 1"], ["raw", "raw", "raw"]),
+    ("tcp", ["start", "connect", "connectbad", "send 0", "stop", "connectbad", "leave 0"], ["raw", "raw", "raw"]),
     # the bundled CLI client, leaving by 'exit' and by EOF
     ("unix", ["start", "connect", "send 0", "leave 0", "stop"], ["cli"]),
     ("tcp", ["start", "connect", "send 0", "send 0", "stop", "leave 0"], ["cli"]),
@@ -152,6 +159,7 @@ def main(pid, tier, seed, replay):
     if failing:
         # confirm (real time is involved): a failing scenario must fail again on its own
         confirmed = []
+        lockstep._init_worker()
         for r in failing[:4]:
             again = job_scn(r["kind"], r["labels"], r["clients"], r["id"] + "-again")[0]
             if again.get("fails"):
